@@ -190,6 +190,13 @@ def _report(jm, model, path, r, out, seen_notes):
         m = lib.monitor_ops(jm, path, d2["input"]["ops"], fac)
         if m["violation"] is not None and m["violation"]["signature"] not in [w["signature"] for w in out["violations"]]:
             out["violations"].append(m["violation"])
+        # ... and its crash clause: the directory before / after every file-system call of every op of the
+        # input (shrunk and as found), reopened with the real class
+        for ops in (d2["input"]["ops"], d["input"]["ops"]):
+            out["coverage"].hit("fs_pass_on_disagreement")
+            for v in lib.fs_check_sequence(jm, os.path.dirname(path), ops, fac, cov=out["coverage"], limit=2):
+                if v["signature"] not in [w["signature"] for w in out["violations"]]:
+                    out["violations"].append(v)
 
 
 def run(ctx):
@@ -310,6 +317,9 @@ def replay(ctx, violation):
     rp = violation.get("replay") or {}
     tmp = ctx.tmpdir()
     try:
+        if rp.get("kind") == "fs":
+            m, killed = lib.replay_fs(jm, tmp, rp)
+            return {"violated": m is not None, "signature": m and m[0], "what": m and m[1], "killed": killed, "tree": ctx.repo}
         r = lib.monitor_ops(jm, os.path.join(tmp, "replay"), rp.get("ops", []), rp.get("factory", "FileJournal"),
                             rng=ctx.rng("journal_bytes/replay"))
     finally:
